@@ -14,6 +14,7 @@ import (
 	"io"
 	"net/http"
 	"net/http/httptest"
+	"runtime"
 	"strings"
 
 	"github.com/ipfs/go-cid"
@@ -119,7 +120,13 @@ func sameResult(a, b model.ProviderResult) bool {
 func Run(args []string) *rep.Report {
 	fs := flag.NewFlagSet("c19", flag.ExitOnError)
 	file := fs.String("cases", "", "ndjson case table exported by TLC")
+	shard := fs.String("shard", "", "i/n (internal)")
+	procs := fs.Int("procs", runtime.NumCPU(), "worker processes")
 	fs.Parse(args)
+	if *shard == "" {
+		return rep.RunSharded("c19", args, *procs)
+	}
+	si, sn := rep.ParseShard(*shard)
 	r := rep.New()
 	var cur *tcase
 	var curResults []model.ProviderResult
@@ -172,6 +179,9 @@ func Run(args []string) *rep.Report {
 			return err
 		}
 		idx++
+		if idx%sn != si {
+			return nil
+		}
 		cur, handlerPanic = tc, ""
 		nres := tc.Nres
 		if nres > 0 {
